@@ -44,6 +44,9 @@ func (a *LabelFormatPlanner) Process(ctx *shared.PlannerContext,
 
 	return a.WrapProcess(ctx, in, GenericPlannerOps{
 		OnEntry: func(entry *shared.LogEntry) error {
+			if entry.Err != nil {
+				return nil
+			}
 			for _, fn := range labelFns {
 				entry.Labels = fn(entry.Labels)
 			}
